@@ -430,6 +430,38 @@ func (m *Model) RunTruthUsers(s *Sink, rule string) {
 // R-BRANCH
 
 func (m *Model) RunBranch(s *Sink, rule string) {
+	// @if: decided by case evaluation (rule_ifcases.go); the structural reading of evalIfStmt below is kept as the
+	// diagnosis (it names the construct) and as the decision when the cases cannot be evaluated
+	sub := NewSink()
+	m.runBranchIf(sub, rule)
+	cr := m.ifCases()
+	switch {
+	case cr.decided && len(cr.bad) == 0:
+		s.OK(rule, "@if by cases|first truthy branch only, errors returned, nothing evaluated afterwards", cr.evalPos,
+			"case evaluation of Eval on an abstract @if/@elseif/@elseif/[@else] statement: %d combinations of truthy / falsy / failing conditions, children evaluated and result as specified in each", cr.cases)
+		for _, o := range sub.Obls {
+			if o.Status == Violated || o.Status == Undecided {
+				s.OK(o.Rule, o.Key, o.Pos, "the code does not have the shape this structural reading expects (%s); decided by case evaluation instead", o.Detail)
+			} else {
+				s.Obls = append(s.Obls, o)
+			}
+		}
+	case cr.decided:
+		for i, b := range cr.bad {
+			if i >= 3 {
+				break
+			}
+			s.Violation(rule, fmt.Sprintf("@if by cases|wrong branch behaviour (%d)", i+1), cr.evalPos, "evaluating an @if statement with %s (%d of %d cases differ)", b, len(cr.bad), cr.cases)
+		}
+		s.Obls = append(s.Obls, sub.Obls...)
+	default:
+		s.Note(rule, "@if by cases", cr.evalPos, "case evaluation not possible (%s); structural reading only", cr.why)
+		s.Obls = append(s.Obls, sub.Obls...)
+	}
+	m.runBranchTernary(s, rule)
+}
+
+func (m *Model) runBranchIf(s *Sink, rule string) {
 	fn := m.Method("evaluator", "Evaluator", "evalIfStmt")
 	if fn == nil {
 		s.Undecided(rule, "evalIfStmt", "-", "evalIfStmt not found")
@@ -562,7 +594,9 @@ func (m *Model) RunBranch(s *Sink, rule string) {
 			"Eval(node.Alternative) is not confined to the path on which the @if condition and every @elseif condition were falsy")
 		check("@else result is returned unchanged", onlyReturned(a), m.InstrPos(a), "the result flows directly to a return", "the @else result is not returned directly")
 	}
-	// ternary
+}
+
+func (m *Model) runBranchTernary(s *Sink, rule string) {
 	tf := m.Method("evaluator", "Evaluator", "evalTernaryExp")
 	if tf == nil {
 		s.Undecided(rule, "evalTernaryExp", "-", "evalTernaryExp not found")
